@@ -117,14 +117,14 @@ func frameCheck(p *program, rep *checkReport, vdir string) {
 	sort.Strings(ownedFields)
 	sort.Strings(sharedFields)
 	rep.extra["frame"] = map[string]interface{}{
-		"engine":                   "ownership / frame calculus over go/ssa (interprocedural region analysis with function summaries, CHA for interface and function-value calls)",
-		"functions_analysed":       len(fa.order),
-		"entry_points":             len(roots),
-		"write_sites":              len(obs),
-		"write_sites_owned":        nOK,
-		"evaluation_only_types":    evalTypes,
-		"fields_declared_owned":    ownedFields,
-		"fields_declared_shared":   sharedFields,
+		"engine":                     "ownership / frame calculus over go/ssa (interprocedural region analysis with function summaries, CHA for interface and function-value calls)",
+		"functions_analysed":         len(fa.order),
+		"entry_points":               len(roots),
+		"write_sites":                len(obs),
+		"write_sites_owned":          nOK,
+		"evaluation_only_types":      evalTypes,
+		"fields_declared_owned":      ownedFields,
+		"fields_declared_shared":     sharedFields,
 		"functions_with_write_sites": len(fnSet),
 	}
 	rep.trusted["soundness of the ownership calculus (regions, field qualifiers checked at every store, evaluation-only types by rely/guarantee): pen-and-paper argument, DESIGN §3.7"] = true
